@@ -394,6 +394,7 @@ Qed.
 Lemma Inv_handle c x s x' : Inv c x -> step c x (Handle s) = Some x' -> Inv c x'.
 Proof.
   intros I H. cbn in H. destruct (nth_error (modes x) s) as [[| |it]|] eqn:Hmode; try discriminate.
+  destruct (active (dt x)) as [|a0 act]; [discriminate|].
   injection H as <-.
   pose proof (nth_error_lt _ _ _ Hmode) as Hsm.
   assert (Hsn : (s < n_senders c)%nat) by (rewrite <- (i_len_m _ _ I); exact Hsm).
@@ -404,7 +405,7 @@ Proof.
                     exists m0, ckpt x = Some (cur, m0) /\ ~ In s' m0) by (intros; eauto).
   assert (Kno : forall ok cur m, ckpt x = Some (cur, m) -> ~ In s m -> it = IBar cur /\ ok = true).
   { intros ok cur m Ec Hn. exfalso. eapply passed_not_reg; eauto. }
-  destruct it as [id key tm|t|cid].
+  destruct it as [id key tm|t|cid|].
   - (* keyed event *)
     apply (Inv_handle_gen c x s (IEv id key tm) true [BEv (s, acted x s) id key tm] _ (ckpt x) I Hmode); auto.
     + apply add_item_dext.
@@ -473,11 +474,20 @@ Proof.
         -- apply dext_refl.
         -- rewrite Ec. apply K1. auto.
         -- apply K2.
+  - (* SourceComplete *)
+    apply (Inv_handle_gen c x s IDone true [] _ (ckpt x) I Hmode); auto.
+    + change (@nil bitem) with (@nil bitem ++ []). eapply dext_trans; [apply flush_dext|]. apply dext_same; reflexivity.
+    + intros b [].
+    + intros o i k t [].
+    + intros o k ts [].
+    + discriminate.
+    + apply Kno.
 Qed.
 
 Lemma Inv_step c x a x' : Inv c x -> step c x a = Some x' -> Inv c x'.
 Proof.
-  intros I H. destruct a as [s it|s|s| |].
+  intros I H. destruct a as [s it|s|s| | |s].
+  6:{ cbn in H. destruct (nth_error (modes x) s) as [[| |]|]; try discriminate. injection H as <-. exact I. }
   - eapply Inv_gate; eauto.
   - eapply Inv_wake; eauto.
   - eapply Inv_handle; eauto.
@@ -498,7 +508,7 @@ Lemma handle_item_frame c x s it :
   modes (handle_item c x s it) = set_nth s Idle (modes x) /\
   sent (handle_item c x s it) = set_nth s (items_of x s ++ [it]) (sent x).
 Proof.
-  unfold handle_item. destruct it as [id key tm|t|cid]; cbn; auto.
+  unfold handle_item. destruct it as [id key tm|t|cid|]; cbn; auto.
   destruct (ckpt x) as [[cur m]|].
   - destruct (cid =? cur); cbn; auto. destruct (remove_nat s m); cbn; auto.
   - rewrite N.eqb_refl. cbn. destruct (remove_nat s _); cbn; auto.
@@ -509,7 +519,9 @@ Proof. revert i; induction l as [|a l IH]; intros [|i] H; cbn in *; try discrimi
 
 Lemma step_full c x a x' s : Inv c x -> step c x a = Some x' -> full x' s = full x s ++ gate_item a s.
 Proof.
-  intros I H. destruct a as [s' it|s'|s'| |]; cbn [gate_item].
+  intros I H. destruct a as [s' it|s'|s'| | |s']; cbn [gate_item].
+  6:{ cbn in H. destruct (nth_error (modes x) s') as [[| |]|]; try discriminate. injection H as <-.
+      rewrite app_nil_r. reflexivity. }
   - cbn in H. destruct (nth_error (modes x) s') as [[| |]|] eqn:E; try discriminate. injection H as <-.
     pose proof (nth_error_lt _ _ _ E) as Hlt. unfold full, with_mode, items_of; cbn [modes sent].
     destruct (Nat.eqb s' s) eqn:Es.
@@ -522,7 +534,8 @@ Proof.
     destruct (Nat.eq_dec s' s) as [->|Hne].
     + rewrite nth_set_nth_eq by exact Hlt. rewrite (nth_of_nth_error _ _ _ Idle E). reflexivity.
     + rewrite nth_set_nth_neq by exact Hne. reflexivity.
-  - cbn in H. destruct (nth_error (modes x) s') as [[| |it]|] eqn:E; try discriminate. injection H as <-.
+  - cbn in H. destruct (nth_error (modes x) s') as [[| |it]|] eqn:E; try discriminate.
+    destruct (active (dt x)); [discriminate|]. injection H as <-.
     pose proof (nth_error_lt _ _ _ E) as Hlt.
     assert (Hls : (s' < length (sent x))%nat) by (rewrite (i_len_s _ _ I), <- (i_len_m _ _ I); exact Hlt).
     destruct (handle_item_frame c x s' it) as (Hm & Hs). unfold full, items_of. rewrite Hm, Hs, app_nil_r.
